@@ -2,6 +2,9 @@
 pub mod c01;
 pub mod c02;
 pub mod c03;
+pub mod c04;
+pub mod c05;
+pub mod c06;
 pub mod c13;
 
 use crate::run::Tier;
@@ -11,6 +14,9 @@ pub fn dispatch(id: &str, tier: Tier) -> Option<i32> {
         "C01" => Some(c01::run(tier)),
         "C02" => Some(c02::run(tier)),
         "C03" => Some(c03::run(tier)),
+        "C04" => Some(c04::run(tier)),
+        "C05" => Some(c05::run(tier)),
+        "C06" => Some(c06::run(tier)),
         "C13" => Some(c13::run(tier)),
         _ => None,
     }
